@@ -120,17 +120,25 @@ impl<F: PairFn> Visit for FirstCore<F> {
     type Out = Option<F::Out>;
     fn visit<H: Shape>(self) -> Option<F::Out> { with_core(self.0, CallT::<H, F>(self.1, std::marker::PhantomData)) }
 }
-/// is the ordered pair instantiated in this build?
+/// is the ordered pair instantiated in this build?  default: every pair with a core member;
+/// `--cfg layout_full`: every ordered pair; `--cfg layout_small`: core x core only
 pub fn pair_ok(h: usize, t: usize) -> bool {
-    h < NSHAPES && t < NSHAPES && (cfg!(layout_full) || h < NCORE || t < NCORE)
+    if h >= NSHAPES || t >= NSHAPES { return false; }
+    if cfg!(layout_full) { return true; }
+    if cfg!(layout_small) { return h < NCORE && t < NCORE; }
+    h < NCORE || t < NCORE
 }
 pub fn with_pair<F: PairFn>(h: usize, t: usize, f: F) -> Option<F::Out> {
     if !pair_ok(h, t) { return None; }
-    if h < NCORE { return with_core(h, FirstAll(t, f)).flatten(); }
     #[cfg(layout_full)]
-    { return with_other(h - NCORE, FirstAll(t, f)).flatten(); }
-    #[cfg(not(layout_full))]
-    { return with_other(h - NCORE, FirstCore(t, f)).flatten(); }
+    { return with_any(h, FirstAll(t, f)).flatten(); }
+    #[cfg(all(layout_small, not(layout_full)))]
+    { return with_core(h, FirstCore(t, f)).flatten(); }
+    #[cfg(not(any(layout_full, layout_small)))]
+    {
+        if h < NCORE { return with_core(h, FirstAll(t, f)).flatten(); }
+        return with_other(h - NCORE, FirstCore(t, f)).flatten();
+    }
 }
 
 // ------------------------------------------------------------------------------------------------
@@ -211,6 +219,11 @@ impl Cx {
     }
 }
 
+const PANIC_MARK: Ev = Ev::BadRead(u64::MAX);
+/// pushed right before the library constructor is called: allocator events after it are the library's
+const LIB_MARK: Ev = Ev::BadRead(u64::MAX - 1);
+fn lib_mark() { harness::push_ev(LIB_MARK) }
+
 fn bits_of<X>(x: &X) -> usize { assert!(size_of::<X>() >= size_of::<usize>()); unsafe { transmute_copy::<X, usize>(x) } }
 
 /// what every `Arc<X>` shows: heap_ptr / as_ptr / Deref / ArcBorrow word / size & align of the value
@@ -251,6 +264,7 @@ fn run_sized<P: Shape>(c: &Case, o: &mut Obs) {
     let seed = c.seed;
     let mut cx = Cx::new();
     set_recording(true);
+    lib_mark();
     let a: Arc<P> = match c.ctor {
         "new" => Arc::new(P::make(seed)),
         "from_t" => Arc::from(P::make(seed)),
@@ -423,10 +437,12 @@ fn run_hs<H: Shape, T: Shape>(c: &Case, o: &mut Obs) {
     let mut cx = Cx::new();
     set_recording(true);
     let it = items::<T>(len, seed);
+    let itc = if c.ctor == "vec" { it.clone() } else { Vec::new() };
+    lib_mark();
     let a: Arc<HeaderSlice<H, [T]>> = match c.ctor {
         "iter" => Arc::from_header_and_iter(H::make(seed), it.iter().copied()),
         "slice" => Arc::from_header_and_slice(H::make(seed), &it),
-        "vec" => Arc::from_header_and_vec(H::make(seed), it.clone()),
+        "vec" => Arc::from_header_and_vec(H::make(seed), itc),
         "uninit" => {
             let mut u = UniqueArc::<HeaderSlice<H, [MaybeUninit<T>]>>::from_header_and_uninit_slice(H::make(seed), len);
             for i in 0..len { u.slice[i] = MaybeUninit::new(it[i]); }
@@ -480,6 +496,7 @@ fn run_thin<H: Shape, T: Shape>(c: &Case, o: &mut Obs) {
     let mut cx = Cx::new();
     set_recording(true);
     let it = items::<T>(len, seed);
+    lib_mark();
     let t: ThinArc<H, T> = match c.ctor {
         "slice" => ThinArc::from_header_and_slice(H::make(seed), &it),
         "iter" => ThinArc::from_header_and_iter(H::make(seed), it.iter().copied()),
@@ -601,9 +618,11 @@ fn run_slice<T: Shape>(c: &Case, o: &mut Obs) {
     let mut cx = Cx::new();
     set_recording(true);
     let it = items::<T>(len, seed);
+    let itc = if c.ctor == "from_vec" { it.clone() } else { Vec::new() };
+    lib_mark();
     let a: Arc<[T]> = match c.ctor {
         "from_ref" => Arc::from(&it[..]),
-        "from_vec" => Arc::from(it.clone()),
+        "from_vec" => Arc::from(itc),
         "iter_exact" => it.iter().copied().collect::<Arc<[T]>>(),
         "iter_unknown" => it.iter().copied().filter(|_| true).collect::<Arc<[T]>>(),
         "uninit" => {
@@ -689,6 +708,8 @@ fn run_str<H: Shape>(c: &Case, o: &mut Obs) {
     let mut cx = Cx::new();
     set_recording(true);
     let s = text(len, seed);
+    let sc = if c.ctor == "from_string" { s.clone() } else { String::new() };
+    lib_mark();
     if c.ctor == "hdr_str" {
         let a: Arc<HeaderSlice<H, str>> = Arc::from_header_and_str(H::make(seed), &s);
         cx.find_block(o);
@@ -715,7 +736,7 @@ fn run_str<H: Shape>(c: &Case, o: &mut Obs) {
     } else {
         let a: Arc<str> = match c.ctor {
             "from_str" => Arc::from(&s[..]),
-            "from_string" => Arc::from(s.clone()),
+            "from_string" => Arc::from(sc),
             _ => { set_recording(false); return bad(o, "ctor"); }
         };
         cx.find_block(o);
@@ -769,6 +790,7 @@ fn run_union<A: Shape, B: Shape>(c: &Case, o: &mut Obs) {
     let seed = c.seed;
     let mut cx = Cx::new();
     set_recording(true);
+    lib_mark();
     let u: ArcUnion<A, B> = if c.which == 1 {
         let a = Arc::new(A::make(seed));
         cx.find_block(o);
@@ -858,8 +880,9 @@ impl<T: Shape> Iterator for Huge<T> {
         set_recording(false);
         let evs = take_events();
         let mut line = String::from("st=wrote");
-        for e in &evs { if let Ev::Alloc(_, s, a) = e { line.push_str(&format!(" alloc={},{}", s, a)); } }
-        println!("{} allocs={}", line, evs.iter().filter(|e| matches!(e, Ev::Alloc(..))).count());
+        let mut n = 0;
+        for e in &evs { if let Ev::Alloc(_, s, a) = e { line.push_str(&format!(" alloc={},{}", s, a)); n += 1; } }
+        println!("{} allocs={}", line, n);
         std::process::exit(0);
     }
     fn size_hint(&self) -> (usize, Option<usize>) { (self.0, Some(self.0)) }
@@ -870,6 +893,7 @@ fn run_ovf<H: Shape, T: Shape>(c: &Case, o: &mut Obs) {
     let len = c.len;
     let mut cx = Cx::new();
     set_recording(true);
+    lib_mark();
     match c.ctor {
         "uninit" => {
             let u = UniqueArc::<HeaderSlice<H, [MaybeUninit<T>]>>::from_header_and_uninit_slice(H::make(1), len);
@@ -989,14 +1013,16 @@ fn dispatch(w: &[&str], o: &mut Obs) {
 }
 
 fn main() {
-    harness::quiet_panics();
+    // panics are expected observations: stay quiet, and mark the point in the event log where
+    // the panic started (the panic machinery itself allocates the payload after the hook)
+    std::panic::set_hook(Box::new(|_| harness::push_ev(PANIC_MARK)));
     let stdin = std::io::stdin();
     for line in stdin.lock().lines() {
         let line = match line { Ok(l) => l, Err(_) => break };
         let w: Vec<&str> = line.split_whitespace().collect();
         if w.is_empty() { println!("st=bad-case:empty"); continue; }
         if w[0] == "shapes" {
-            let mut out = format!("st=ok nshapes={} ncore={} full={}", NSHAPES, NCORE, cfg!(layout_full) as u8);
+            let mut out = format!("st=ok nshapes={} ncore={} full={} small={} debug_assertions={} unsize={} arc_swap={}", NSHAPES, NCORE, cfg!(layout_full) as u8, cfg!(layout_small) as u8, cfg!(debug_assertions) as u8, cfg!(feature = "t_unsize") as u8, cfg!(feature = "t_arc_swap") as u8);
             for i in 0..NSHAPES {
                 let (name, sz, al) = with_any(i, InfoV).unwrap();
                 out.push_str(&format!(" {}:{}:{}:{}", i, name, sz, al));
@@ -1012,11 +1038,16 @@ fn main() {
             // a panic inside the library: report its class and what the allocator saw before it
             o.st = format!("panic:{}", harness::panic_class(&*p));
             let evs = take_events();
+            // the library's own allocations lie between the LIB mark and the PANIC mark; the panic
+            // machinery formats its message into a String (align 1) before the hook runs, so only
+            // word-aligned allocations are counted: every Arc block contains the count word
+            let from = evs.iter().rposition(|e| *e == LIB_MARK).map(|i| i + 1).unwrap_or(0);
+            let cut = evs.iter().position(|e| *e == PANIC_MARK).unwrap_or(evs.len()).max(from);
             let mut allocs = 0;
             let mut deallocs = 0;
-            for e in &evs {
+            for e in &evs[from..cut] {
                 match e {
-                    Ev::Alloc(i, s, a) => {
+                    Ev::Alloc(i, s, a) if *a >= size_of::<usize>() => {
                         allocs += 1;
                         let freed = evs.iter().any(|d| matches!(d, Ev::Dealloc(j, _, _) if j == i));
                         if !freed { o.lay("leaked", *s, *a); }
@@ -1029,8 +1060,9 @@ fn main() {
             o.s.retain(|(k, _)| *k == "leaked");
             o.num("allocs", allocs);
             o.num("deallocs", deallocs);
-            if let Some(s) = p.downcast_ref::<String>() { o.text("msg", &s.replace(' ', "_").chars().take(160).collect::<String>()); }
-            else if let Some(s) = p.downcast_ref::<&str>() { o.text("msg", &s.replace(' ', "_").chars().take(160).collect::<String>()); }
+            let msg = if let Some(s) = p.downcast_ref::<String>() { s.clone() } else if let Some(s) = p.downcast_ref::<&str>() { s.to_string() } else { String::new() };
+            let msg: String = msg.chars().map(|ch| if ch.is_whitespace() { '_' } else { ch }).take(120).collect();
+            o.text("msg", &msg);
         } else {
             let _ = take_events();
         }
